@@ -34,3 +34,20 @@ P("C16", "mirfacts+rules",
   "OutDir itself, a read_dir(OutDir) entry guarded by is_file ∧ is_generated_file ∧ ¬current, or the CLI-given config path; checks the "
   "deletion predicate's literal table against the statement's reserved names.  Exhaustive over call sites and callers; symlinks/OS path resolution not claimed.",
   "trusts the std::fs mutator table and rustc's callee resolution; GenerateConfig.output_path is taken as the output directory by definition")
+
+P("C13", "mirfacts+srcfacts+rules",
+  "static analysis: type-driven unordered-iteration taint (UNORD), who-may-call for clock/environment reads (CALLS), field-read flow of layout carriers (FLOW), control-region inspection (CTRL) over MIR; template identifier scan",
+  "Enumerates by type every consumption of a HashMap/HashSet/read_dir/walkdir iteration reachable from the entry points and classifies it "
+  "(erased into a map/set, sorted before use, confluent worklist, reviewed, or leak into an ordered container/string); restricts clock and "
+  "environment reads on the analysis+generation path to the header construction; shows no template or text builder reads a line number; "
+  "shows verbose-only regions only print and visualisation-only regions only write their two files.  Exhaustive over reachable bodies; "
+  "OS-level ordering outside the process is not claimed.",
+  "trusts that iterator adaptor types nest their source type; the diagnostics module only prints (re-checked each run)", b=True)
+
+P("C14", "mirfacts+rules",
+  "static analysis: UNORD over the digest functions and discovery path, serde-carrier type inspection, cache-hit control-region vs filesystem-mutator closure (CALLS/ORDER), force-guard dominance (CTRL)",
+  "Decides that the three cache digests are built from order-free inputs with a fixed-key hasher, that every block which runs only when "
+  "needs_regeneration answered false (and the callers' continuation after such a return) reaches no filesystem mutator, that the cache is "
+  "consulted only under should_force()==false, that force reaches generation without it, and that the CLI flag is applied after the "
+  "configuration is loaded and never overwritten.  Exhaustive over both paths' CFGs.",
+  "64-bit digest collisions ignored; mtime behaviour of the file system not modelled")
